@@ -30,7 +30,7 @@ theorem C14_unreferenced_kept (a : List (String × String)) (ks : List Xml) :
 
 theorem C14_missing_content_visible (root ref : Xml) (rid : Nat) (ancestors : List Xml)
     (h1 : findById rid root = some ref) (h2 : ancestorsOf rid root = some ancestors)
-    (h3 : ancestors.findSome? (fun p => firstDisplaced (ref.attrs.lookup "marker") ((ref.attrs.lookup "displaced").getD "") p) = none) :
+    (h3 : ancestors.findSome? (fun p => firstDisplaced rid (ref.attrs.lookup "marker") ((ref.attrs.lookup "displaced").getD "") p) = none) :
     resolveRef root rid =
       .ok (modifyById rid (appendKids [.elem "p" [] [.text "(content missing)"]]) (modifyById rid (popAttr "displaced") root)) := by
   unfold resolveRef
@@ -38,7 +38,7 @@ theorem C14_missing_content_visible (root ref : Xml) (rid : Nat) (ancestors : Li
 
 theorem C14_match_is_nearest_first (root ref content : Xml) (rid : Nat) (ancestors : List Xml)
     (h1 : findById rid root = some ref) (h2 : ancestorsOf rid root = some ancestors)
-    (h3 : ancestors.findSome? (fun p => firstDisplaced (ref.attrs.lookup "marker") ((ref.attrs.lookup "displaced").getD "") p) = some content)
+    (h3 : ancestors.findSome? (fun p => firstDisplaced rid (ref.attrs.lookup "marker") ((ref.attrs.lookup "displaced").getD "") p) = some content)
     (h4 : (elemKids content).any (containsId rid) = false) :
     resolveRef root rid =
       .ok (modifyById rid (appendKids (elemKids content))
@@ -59,5 +59,53 @@ theorem C14_examples :
     -- a surplus block stays in the document as ordinary content
     textsOf "p" (convert testUris "" "x\nFOOTNOTE 9\n  kept\n" "doc") = ["x", "FOOTNOTE 9", "kept"] := by
   decide +kernel
+
+/-! ## A reference inside its own block (finding F23, repaired in 13653fd)
+
+The candidate search skips a block that contains the reference, so moving content into a reference can
+never move the reference's own ancestor: resolving a reference cannot fail. -/
+mutual
+theorem firstDisplaced_clean (rid : Nat) (m : Option String) (n : String) :
+    ∀ (x c : Xml), firstDisplaced rid m n x = some c → containsIdL rid c.kids = false
+  | .text _, c, h => by simp [firstDisplaced] at h
+  | .elem t a ks, c, h => by
+    rw [firstDisplaced] at h
+    split at h
+    · next hc => injection h with h; subst h; simpa [Xml.kids] using hc.2.2.2
+    · exact firstDisplacedL_clean rid m n ks c h
+theorem firstDisplacedL_clean (rid : Nat) (m : Option String) (n : String) :
+    ∀ (l : List Xml) (c : Xml), firstDisplacedL rid m n l = some c → containsIdL rid c.kids = false
+  | [], c, h => by simp [firstDisplacedL] at h
+  | k :: ks, c, h => by
+    rw [firstDisplacedL] at h
+    split at h
+    · next x hx => injection h with h; subst h; exact firstDisplaced_clean rid m n k x hx
+    · exact firstDisplacedL_clean rid m n ks c h
+end
+
+theorem containsIdL_filter (rid : Nat) : ∀ (l : List Xml), containsIdL rid l = false →
+    (l.filter Xml.isElem).any (containsId rid) = false
+  | [], _ => rfl
+  | k :: ks, h => by
+    simp only [containsIdL, Bool.or_eq_false_iff] at h
+    have ih := containsIdL_filter rid ks h.2
+    by_cases hk : k.isElem = true
+    · simp [List.filter_cons, hk, h.1, ih]
+    · simp [List.filter_cons, hk, ih]
+
+/-- resolving one reference always succeeds -/
+theorem C14_resolve_ref_total (root : Xml) (rid : Nat) : ∃ r, resolveRef root rid = .ok r := by
+  unfold resolveRef
+  split
+  · next ref ancestors _ _ =>
+    simp only
+    split
+    · next content hfound =>
+      obtain ⟨p, _, hp⟩ := List.exists_of_findSome?_eq_some hfound
+      have hclean := firstDisplaced_clean rid _ _ p content hp
+      have : (elemKids content).any (containsId rid) = false := containsIdL_filter rid _ hclean
+      simp [this]
+    · exact ⟨_, rfl⟩
+  · exact ⟨_, rfl⟩
 
 end Bluebell
